@@ -453,7 +453,7 @@ impl Check for C20 {
         vec!["thread interleavings of drops are covered only by C03's engine".into(), "a panic while opening a deliberately damaged file is counted, not judged (C12); the close contract is still checked after unwinding".into()]
     }
     fn plan(&self, tier: Tier) -> Plan {
-        Plan { cases: tier.pick(3000, 100_000), max_recs: 50, max_shrink_iters: 2000, workers: 16 }
+        Plan { cases: tier.pick(40_000, 800_000), max_recs: 50, max_shrink_iters: 2000, workers: 16 }
     }
     fn run(&self, tape: &Tape, want_sample: bool) -> Result<CaseOut, Failure> {
         let (o, r) = run_case(tape, want_sample);
